@@ -6,6 +6,6 @@ GenSpec == Init /\ [][Next]_vars
 \* one line per complete history: the last validation of a certificate whose verdict may depend on
 \* the clock (MaxRounds validations), or the only validation otherwise
 Complete == Done /\ (Len(clks) = MaxRounds \/ ~TimeSensitive \/ outcome = "loaderror")
-EmitB == Complete => PrintT("B " \o ToJson([cert |-> cert, rot |-> rot, ndef |-> ndef, nren |-> nren, outcome |-> outcome, clks |-> clks, scale |-> scale, tz |-> tz, outs |-> Append(outs, outcome),
+EmitB == Complete => PrintT("B " \o ToJson([cert |-> cert, rot |-> rot, ndef |-> ndef, nren |-> nren, outcome |-> outcome, clks |-> clks, scale |-> scale, tz |-> tz, len |-> len, outs |-> Append(outs, outcome),
                                          failing |-> failing, valid |-> SpecValid(cert, rot, Target)]))
 =============================================================================
